@@ -37,9 +37,12 @@ typedef struct c14_file C14_FILE;     /* opaque FILE */
 #define C14_U8(p) ((const uint8_t*)(p))
 
 /* read(2): "-1 and errno | 0 at end-of-file | the number of bytes read, which may be less than nbyte" */
+extern int g_stream_fd_taken, g_stream_fd;
+#define C14_NOT_THE_STREAM_FD(fd) (!(g_stream_fd_taken && (fd) == g_stream_fd))   /* POSIX 2.5.1, see c14_fileno */
 ssize_t c14_read(int fd, void* buf, size_t n)
 __CPROVER_requires(n == 0 || __CPROVER_w_ok(buf, n))
 __CPROVER_requires(C14_STREAM_OK)
+__CPROVER_requires(C14_NOT_THE_STREAM_FD(fd))
 __CPROVER_ensures(__CPROVER_return_value >= -1 && __CPROVER_return_value == g_chunk)
 __CPROVER_ensures(__CPROVER_return_value >= 0 ==> ((size_t)__CPROVER_return_value <= n && (size_t)__CPROVER_return_value <= (g_src_len - __CPROVER_old(g_pos))))
 __CPROVER_ensures(g_pos == __CPROVER_old(g_pos) + (__CPROVER_return_value > 0 ? (size_t)__CPROVER_return_value : 0))
@@ -129,9 +132,16 @@ __CPROVER_assigns();
 int c14_ferror(C14_FILE* f)
 __CPROVER_ensures((__CPROVER_return_value != 0) == (g_err_seen != 0))
 __CPROVER_assigns();
+/* fileno (POSIX): the descriptor underlying the stream.  POSIX.1-2017 2.5.1 "Interaction of File Descriptors and Standard I/O Streams":
+ * a stream that is open for reading may hold bytes it has already fetched from the descriptor in its buffer; reading the descriptor
+ * directly (without the fflush/fseek hand-over, which an arbitrary caller-supplied stream does not allow) skips those bytes.
+ * The stub records that the descriptor of the stream has been taken (g_stream_fd); read / pread on exactly that descriptor
+ * is a precondition failure of the read stubs below. */
+extern int g_stream_fd_taken, g_stream_fd;
 int c14_fileno(C14_FILE* f)
 __CPROVER_ensures(__CPROVER_return_value >= -1)
-__CPROVER_assigns();
+__CPROVER_ensures(g_stream_fd_taken == 1 && g_stream_fd == __CPROVER_return_value)
+__CPROVER_assigns(g_stream_fd_taken, g_stream_fd);
 
 /* fgets (7.21.7.2) on a source whose remaining bytes [g_pos, g_src_len) form ONE LINE: no '\n' except possibly the very
  * last byte (g_has_nl), no NUL byte (the C interface cannot report a length, so text without NUL is assumed).
@@ -193,6 +203,6 @@ __CPROVER_requires(verif_exc == 0)
 __CPROVER_ensures((verif_exc == 0 && __CPROVER_return_value == g_stat_size) || verif_exc == EXC_runtime_error)
 __CPROVER_assigns(verif_exc);
 
-#define C14_GHOSTS int g_open_flags; ssize_t g_stat_size; size_t g_vk, g_src_len, g_pos, g_wpos; int g_eof_seen, g_err_seen; uint8_t g_sval, g_wval; ssize_t g_chunk; \
+#define C14_GHOSTS int g_stream_fd_taken, g_stream_fd; int g_open_flags; ssize_t g_stat_size; size_t g_vk, g_src_len, g_pos, g_wpos; int g_eof_seen, g_err_seen; uint8_t g_sval, g_wval; ssize_t g_chunk; \
                    int g_has_nl, g_overrun; const char* g_fg_buf; size_t g_fg_len; int g_fd; unsigned g_closes, g_closes_other;
 #endif
